@@ -1,5 +1,6 @@
 import Tahoe.Sftp.LemmasMain
 import Tahoe.Sftp.LemmasLive
+import Tahoe.Sftp.LemmasHandle
 /-! C39 — SFTP writes are never lost to the background download (property theorems; the model is
 `Tahoe/Sftp/Consumer.lean`, the invariant and the notion of an allowed history are in
 `Tahoe/Sftp/Inv.lean`, helper lemmas in `Tahoe/Sftp/Lemmas*.lean`).
@@ -27,7 +28,9 @@ in any order.
 | the three code paths hit by the seeded changes: merge loop of `write` (`mergeRun`), `set_current_size` leaving the heap alone on truncation (`setSize`), `overwrite` recording every region with `end > downloaded` also across the frontier (`overwrite`) | all inside `refines_reference` (lemmas `writeLoop_inv`, `setSize_inv`, `overwrite_inv0`); each is also compared with the real class after every event (heap contents included) |
 | the code before the fix violates the statement                                   | `asIs_clobbers_client_write_counterexample` |
 | every read is eventually answered (liveness; not claimed by the statement)       | `reads_answered_once_done` (no milestone survives `done_status`; one queue turn answers all fired reads); that the download does end is the environment's part |
-| `GeneralSFTPFile` (the caller) honours the contract                             | not covered — it does not (see the last `example`); outside the anchors of C39 |
+| the contents finally uploaded, at the level of the SFTP handle: `close` commits whenever a write was accepted, wherever close falls relative to the start of the download and the queued writes (`has_changed` set at request time; seeded C39-e) | `handle_close_commits_reference` (model `Tahoe/Sftp/Handle.lean` of `GeneralSFTPFile`'s queue, `has_changed`, `close`/`_commit`); `seedE_pipelined_close_loses_write_counterexample` for the set-point of the seed |
+| size changes applied — when the handle's only requests are `setAttrs(size)`     | FALSE for the code as it is: `code_size_change_only_not_stored_counterexample` (known finding `size-change-only-handle-not-stored`, fixes/C39-setattrs-has-changed.diff); with a write also present the size changes are covered by `handle_close_commits_reference` |
+| `GeneralSFTPFile.readChunk` honours the consumer's read contract                | not covered — it does not (see the `example` on `WF`); reads are not part of the handle model |
 | two pending reads with equal milestone index (`heapq` compares Deferreds → TypeError) | outside the model; noted in harness/props/c39.py |
 -/
 namespace Tahoe.C39
@@ -150,5 +153,56 @@ example : let h : List Ev := [.overwrite 3 [200, 201], .setSize 4, .setSize 9, .
     WF .fixed [1, 2, 3, 4, 5, 6, 7] (init [1, 2, 3, 4, 5, 6, 7]) h
     ∧ (run .fixed [1, 2, 3, 4, 5, 6, 7] (init [1, 2, 3, 4, 5, 6, 7]) h).2 = [⟨0, 0, 9, .data [1, 2, 3, 200, 0, 0, 0, 0, 0]⟩] := by
   decide
+
+/-! ### the SFTP handle (`GeneralSFTPFile`): `has_changed` and the commit decision of `close` -/
+
+/-- For a handle opened on an existing file for writing (no TRUNC/CREAT), with `has_changed` set at the
+time of the `writeChunk` request (the code; `sz` = whether `setAttrs(size)` sets it too, either way):
+in every history of requests (writeChunk, setAttrs, close) interleaved in any way with the start of the
+download (`get_best_readable_version()` firing — before or after any of the requests, also after
+`close`), download chunks of any sizes, `download_done` and queue turns, if at least one `writeChunk`
+was accepted (requested before `close`) and the close is reported successful, then what was stored in
+the grid is exactly the reference: the original with all accepted writes and size changes in order. -/
+theorem handle_close_commits_reference (sz : Bool) (orig : Bytes) (es : List HEv)
+    (hwf : HWF ⟨.atRequest, sz⟩ orig (hinit orig) es)
+    (hwrote : (es.foldl wroteStep (false, false)).1 = true)
+    (hok : (hrun ⟨.atRequest, sz⟩ orig (hinit orig) es).res = .ok) :
+    (hrun ⟨.atRequest, sz⟩ orig (hinit orig) es).stored = some (href orig es) := by
+  have hp := hrun_phase sz orig es (hinit orig) (orig, false) (false, false) (hinit_phase orig) rfl rfl hwf
+  cases hp with
+  | queued cl hcl hs hp hr hc hw hf hres => rw [hres] at hok; cases hok
+  | queuedClosed cl commit hcl hs hp hr hc hw hf hres => rw [hres (hf hwrote)] at hok; cases hok
+  | live hs hp hc hw hinv hq hcc hf hres => rw [hres] at hok; cases hok
+  | committing hs hp hc hw hinv hq hcc hres => rw [hres] at hok; cases hok
+  | finished hs hp hc hw hfin => exact hfin hwrote hok
+
+/-- a pipelined open / write / close: the close request arrives before the download has even started -/
+def pipelined : List HEv :=
+  [.write 2 [200, 201, 202], .close, .start, .chunk 4, .write 0 [9], .chunk 50, .done true, .turn]
+
+/-- non-vacuity: the pipelined history is well-formed, has an accepted write (the second write, after
+`close`, is refused), ends with a successful close and the reference stored -/
+example : HWF .code [1, 2, 3, 4, 5, 6, 7] (hinit [1, 2, 3, 4, 5, 6, 7]) pipelined
+    ∧ (pipelined.foldl wroteStep (false, false)).1 = true
+    ∧ (hrun .code [1, 2, 3, 4, 5, 6, 7] (hinit [1, 2, 3, 4, 5, 6, 7]) pipelined).res = .ok
+    ∧ (hrun .code [1, 2, 3, 4, 5, 6, 7] (hinit [1, 2, 3, 4, 5, 6, 7]) pipelined).stored = some [1, 2, 200, 201, 202, 6, 7]
+    ∧ href [1, 2, 3, 4, 5, 6, 7] pipelined = [1, 2, 200, 201, 202, 6, 7] := by decide
+
+/-- seeded change C39-e (`has_changed` set only when the queued write runs): the same pipelined history
+reports a successful close and stores nothing — the client's write is lost -/
+theorem seedE_pipelined_close_loses_write_counterexample :
+    (hrun .seedE [1, 2, 3, 4, 5, 6, 7] (hinit [1, 2, 3, 4, 5, 6, 7]) pipelined).res = .ok
+    ∧ (hrun .seedE [1, 2, 3, 4, 5, 6, 7] (hinit [1, 2, 3, 4, 5, 6, 7]) pipelined).stored = none := by decide
+
+/-- what the hypothesis "an accepted writeChunk" excludes, and what the code as it is does there:
+`setAttrs(size)` never sets `has_changed`, so a handle whose only requests are size changes reports a
+successful close and stores nothing (known finding, reproduced on the real class); with
+fixes/C39-setattrs-has-changed.diff the truncated contents are stored -/
+theorem code_size_change_only_not_stored_counterexample :
+    let h : List HEv := [.setSize 3, .close, .start, .chunk 50, .done true, .turn]
+    (hrun .code [1, 2, 3, 4, 5, 6, 7] (hinit [1, 2, 3, 4, 5, 6, 7]) h).res = .ok
+    ∧ (hrun .code [1, 2, 3, 4, 5, 6, 7] (hinit [1, 2, 3, 4, 5, 6, 7]) h).stored = none
+    ∧ href [1, 2, 3, 4, 5, 6, 7] h = [1, 2, 3]
+    ∧ (hrun .sizeFix [1, 2, 3, 4, 5, 6, 7] (hinit [1, 2, 3, 4, 5, 6, 7]) h).stored = some [1, 2, 3] := by decide
 
 end Tahoe.C39
